@@ -63,6 +63,18 @@ def cases(tier, rng, schema, feats):
                         add("len", apdu(0, ins, p1, 0, bytes(data), enc))
                         if p1 == 3 and ins in (1, 2):
                             add("len", apdu(1, ins, p1, 0, bytes(data), enc))
+    # every admissible Authenticate length 65..321 with the matching key-handle length byte, in every encoding that can carry it
+    # (the largest short-form data field, 255 bytes, and its neighbours included), and one byte off
+    for L in range(65, 323):
+        for khl in (L - 65, L - 66):
+            if not 0 <= khl <= 255:
+                continue
+            data = bytearray(rng.bytes(L))
+            data[64] = khl
+            for enc in ("short", "shortle", "ext", "extle"):
+                if enc.startswith("short") and L > 255:
+                    continue
+                add("auth", apdu(0, 2, rng.choice([3, 7, 8]), 0, bytes(data), enc))
     # malformed framings
     for k in range(0, 12):
         add("frame", rng.bytes(k))
